@@ -174,12 +174,13 @@ fn make_fault(rng: &mut Rng, spec: &SpecTable, tier: Tier) -> Option<(Vec<u8>, F
             for d in 1..=pp.len() {
                 chain.push(node_ref(&doc, &pp[..d]).id);
             }
-            let leaves: Vec<&crate::spec::ElemDef> = spec.elems.iter().filter(|e| e.ty != Ty::Master && !spec.allowed(e.id, &chain)).collect();
+            // any element of the specification that is not allowed here: a leaf, or an empty master
+            let leaves: Vec<&crate::spec::ElemDef> = spec.elems.iter().filter(|e| !spec.allowed(e.id, &chain)).collect();
             if leaves.is_empty() {
                 return None;
             }
             let l = *rng.pick(&leaves);
-            let node = Node::leaf(l.id, gen::gen_leaf_val(rng, l.ty, &o.pay));
+            let node = if l.ty == Ty::Master { Node::master(l.id, vec![]) } else { Node::leaf(l.id, gen::gen_leaf_val(rng, l.ty, &o.pay)) };
             let parent_id = *chain.last().unwrap();
             let pos = {
                 let p = node_mut(&mut doc, &pp);
@@ -203,19 +204,20 @@ fn make_fault(rng: &mut Rng, spec: &SpecTable, tier: Tier) -> Option<(Vec<u8>, F
             Some((e.bytes, FaultInfo { class, off: el.off, id: l.id, size: el.size.unwrap_or(0) as usize, parent: Some(parent_id), before_mandatory: m, before_optional: op }, MaxSz::Default))
         }
         Class::O => {
-            o.unknown_pct = 0;
+            // known- and unknown-size masters may be mixed: what counts is some known-size ancestor
+            o.unknown_pct = *rng.pick(&[0u64, 0, 50]);
             let doc = gen::gen_doc(rng, spec, &o);
             let mut e = enc::encode(&doc);
             let cands: Vec<usize> = (0..e.layout.elems.len()).filter(|i| {
                 let el = &e.layout.elems[*i];
-                !el.is_master && el.parent.is_some() && matches!(spec.ty(el.id), Some(Ty::Bin) | Some(Ty::Utf8))
+                !el.is_master && matches!(spec.ty(el.id), Some(Ty::Bin) | Some(Ty::Utf8)) && e.layout.ancestors(*i).iter().any(|a| e.layout.elems[*a].size.is_some())
             }).collect();
             if cands.is_empty() {
                 return None;
             }
             let xi = *rng.pick(&cands);
             let el = e.layout.elems[xi].clone();
-            let anc_end = e.layout.ancestors(xi).iter().map(|a| e.layout.elems[*a].end).min().unwrap();
+            let anc_end = e.layout.ancestors(xi).iter().filter(|a| e.layout.elems[**a].size.is_some()).map(|a| e.layout.elems[*a].end).min().unwrap();
             let new_size = (anc_end - el.data_start()) as u64 + 1 + rng.below(20);
             if new_size >= (1u64 << (7 * el.size_len)) - 1 {
                 return None;
